@@ -273,6 +273,11 @@ func (t *trzszTransfer) recvPrefixHash(writer fileWriter, srcFile *sourceFile, t
 		if err != nil {
 			return err
 		}
+		// this line is the one integer of the protocol that is neither echoed nor checksummed; the
+		// NAME record ( zlib + base64 coded ) carries the same number
+		if srcFile.Size > 0 && size != srcFile.Size {
+			return simpleTrzszError("Size mismatch: %d announced for the hash exchange, %d in the file record", size, srcFile.Size)
+		}
 	} else {
 		size = srcFile.Size
 	}
@@ -330,6 +335,9 @@ func (t *trzszTransfer) recvPrefixHash(writer fileWriter, srcFile *sourceFile, t
 	// the sender goes on from the offset IT derived from the answers it received; if an answer
 	// was lost or altered on the way the two offsets differ, and neither the size nor the digest
 	// of the data that follows would show it: remember what the rest must measure
+	if size < matchStep {
+		return simpleTrzszError("Invalid size: %d bytes announced, %d of them are there already", size, matchStep)
+	}
 	t.resumeRestSize = size - matchStep
 	return nil
 }
